@@ -163,6 +163,23 @@ def run(ctx):
                                 cond_ok = False
                 good = cond_ok and not others and not partial
                 detail += " reverse-under-is_leader=%s other-mutations=%s" % (cond_ok, [m[1] for m in others])
+        if not good and len(stm) == 1 and stm[0][2][3][0] == "phi":
+            # the same order spelled as a choice: `if is_leader { [host, peer] } else { [peer, host] }` (no later mutation)
+            shares = stm[0][2][3]
+            defs = phi_defs(g, shares[1])
+            peer_p = Mentions(Call("get_decoded_with_param", Field(vn_try, name="0", variant="Continue"), Any()))
+            host_p = Field(vn_try, name="1", variant="Continue")
+            seen = {}
+            for (de, dconds, bi) in defs:
+                pol = [c[2] for c in dconds if c[0] == "truth" and is_leader(c[1])]
+                if de is not None and de[0] == "agg" and de[1] == "array" and len(de[2]) == 2 and len(pol) == 1:
+                    a0, a1 = de[2]
+                    seen[pol[0]] = "host,peer" if (host_p(a0) and peer_p(a1)) else ("peer,host" if (peer_p(a0) and host_p(a1)) else "?")
+            muts = [t.callee.name for bi, t in f.body.calls() for ce in [g.eb.call_expr(t)]
+                    if ce[0] == "call" and any(x == shares for x in ce[2]) and t.callee.name != "verifier_shares_to_message"]
+            partial = [d for d in f.body.defs.get(shares[1], []) if d[2] == "partial"]
+            detail = "choice %s, mutations %s" % (seen, muts)
+            good = len(defs) == 2 and seen == {True: "host,peer", False: "peer,host"} and not muts and not partial
         if good:
             ctx.ok(rule2, key, "shares = [peer, host], reversed exactly when is_leader => [leader, helper]: %s" % detail, loc=f.loc)
         else:
